@@ -15,6 +15,9 @@ def deductive(ctx, repo, prop):
     r2 = C.topology_registry(calls)
     r2.calls = calls
     dsl.verify(ctx, repo, r2, prop, C.PT + ".create_topology_dict_from_trace", C.h_topology_dict, expect_covers=["topology-dict"])
+    from contracts import c11_pandas as PD
+
+    PD.verify_c11(ctx, repo, "C11")
     ctx.trust(*r.assumed)
     ctx.trust(*r2.assumed)
 
